@@ -8,6 +8,7 @@ import (
 	"encoding/binary"
 	"encoding/hex"
 	"fmt"
+	"maps"
 	"reflect"
 	"sort"
 	"strings"
@@ -16,6 +17,7 @@ import (
 	"verif/mc/chain"
 
 	"github.com/NethermindEth/juno/blockchain"
+	"github.com/NethermindEth/juno/db"
 	"github.com/NethermindEth/juno/db/memory"
 	"github.com/cespare/xxhash/v2"
 )
@@ -67,8 +69,8 @@ func pathString(p []op) string {
 type base struct {
 	name     string
 	newState bool
-	db       *memory.Database  // frozen; always copied before use
-	img      map[string][]byte // = db.Impl(), for the relative state key
+	img      map[string][]byte // frozen image; always copied before use
+	sum      uint64            // checksum of img at freeze time
 	chain    []*chain.Entry
 }
 
@@ -86,17 +88,43 @@ func baseShapeAt(n uint64) int {
 	return shEmpty
 }
 
+// fastCopy clones a store image sharing the value slices (memory.Database never mutates a stored value in
+// place: Put stores a clone, Delete drops the entry); the frozen base images are checksummed before and
+// after the run to make sure of that. ~1 ms instead of ~50 ms for a deep copy of the 8192-block image.
+func fastCopy(src map[string][]byte) *memory.Database {
+	d := memory.New()
+	f := reflect.ValueOf(d).Elem().FieldByName("db")
+	if !f.IsValid() || f.Type() != reflect.TypeOf(src) {
+		panic("INFRA: memory.Database has no field db of type map[string][]byte")
+	}
+	*(*map[string][]byte)(unsafe.Pointer(f.UnsafeAddr())) = maps.Clone(src)
+	return d
+}
+
+func imageSum(m map[string][]byte) uint64 {
+	var acc uint64
+	for k, v := range m {
+		d := xxhash.New()
+		d.WriteString(k)
+		d.Write([]byte{0})
+		d.Write(v)
+		acc ^= d.Sum64()
+	}
+	return acc
+}
+
 // ---- live node --------------------------------------------------------------------------------
 
 type node struct {
 	b     *base
+	pre   map[string][]byte // store image before the check forced the running filter (restart diagnosis)
 	db    *memory.Database
 	bc    *blockchain.Blockchain
 	chain []*chain.Entry
 }
 
 func (b *base) open() *node {
-	d := b.db.Copy()
+	d := fastCopy(b.img)
 	return &node{b: b, db: d, bc: chain.NewNode(d, b.newState), chain: append([]*chain.Entry{}, b.chain...)}
 }
 
@@ -182,7 +210,14 @@ var errDisabled = fmt.Errorf("op not enabled")
 // of the Blockchain: the running event filter and the LRU cache of aggregated filters). Equal keys =>
 // equal store bytes and equal index objects => equal futures for every op and query of this harness.
 // (The state-backend object is rebuilt from the store on restart and holds no event-index state.)
-func (n *node) key() string {
+func (n *node) key() string { return n.keyExcluding("") }
+
+// queryKey identifies everything an event query can read: the store image WITHOUT the running-filter
+// snapshot (only read when a Blockchain initialises its running filter; the caller has forced that
+// already) and the two live index objects. States with equal query keys answer every query identically.
+func (n *node) queryKey() string { return n.keyExcluding(string(db.RunningEventFilter.Key())) }
+
+func (n *node) keyExcluding(skip string) string {
 	h := sha256.New()
 	// image diff, order-independent: XOR of per-entry digests
 	var acc [16]byte
@@ -205,6 +240,10 @@ func (n *node) key() string {
 		}
 	}
 	for k, v := range cur {
+		if k == skip {
+			extra++
+			continue
+		}
 		bv, ok := n.b.img[k]
 		if !ok {
 			extra++
@@ -213,9 +252,13 @@ func (n *node) key() string {
 			mix(2, k, v)
 		}
 	}
-	if len(cur)-extra != len(n.b.img) {
+	want := len(n.b.img)
+	if _, ok := n.b.img[skip]; ok {
+		want--
+	}
+	if len(cur)-extra != want {
 		for k := range n.b.img {
-			if _, ok := cur[k]; !ok {
+			if _, ok := cur[k]; !ok && k != skip {
 				mix(3, k, nil)
 			}
 		}
